@@ -117,10 +117,19 @@ def configurations(draw):
         # every cycle of >= 2 disciplines handed over as ONE process discipline (MDOChain / MDOParallelChain of its
         # members), self-coupled at the wrapper level: the MDAChain has to put an inner MDA around it
         cfg["wrap"] = draw(st.sampled_from([None, None, "MDOChain", "MDOParallelChain"]))
+        # the documented setting sub_coupling_structures: one CouplingStructure per inner MDA, in the order in which
+        # MDAChain creates them
+        cfg["sub_cs"] = draw(st.booleans())
     elif kind == "gsnewton":
         cfg["gs"] = draw(_solver_cfg(["MDAGaussSeidel"]))
         cfg["nr"] = draw(_solver_cfg(["MDANewtonRaphson"]))
         cfg["budget"] = draw(st.sampled_from([10, BUDGET]))
+        # the settings of the two stages given as dictionaries or as Pydantic settings models
+        cfg["settings_as"] = draw(st.sampled_from(["dict", "model"]))
+        # "simplified" discipline Jacobians (coupling partials halved): the Newton stage converges linearly
+        cfg["inexact_jac"] = draw(st.booleans())
+        if cfg["inexact_jac"]:
+            cfg["budget"] = BUDGET
     else:
         cfg["seq"] = [draw(_solver_cfg()), draw(_solver_cfg())]
         cfg["first_budget"] = draw(st.sampled_from([1, 2, 3, BUDGET]))
@@ -129,12 +138,22 @@ def configurations(draw):
         cfg["first_tol"] = draw(st.sampled_from([None, None, 1e-2, 1e-4]))
         if cfg["first_tol"] is not None:
             cfg["first_budget"] = BUDGET
+        # hand-off: plain Jacobi converged to 100 x the tolerance, then plain Jacobi / Gauss-Seidel with just the iteration
+        # budget needed from there (computed from the contraction factor in the case function): the last MDA has to
+        # start from the result of the first one
+        cfg["handoff"] = draw(st.integers(0, 2)) == 0
+        if cfg["handoff"]:
+            plain = {"acc": "NoTransformation", "omega": 1.0}
+            cfg["seq"] = [{**cfg["seq"][0], **plain, "cls": "MDAJacobi"},
+                          {**cfg["seq"][1], **plain, "cls": draw(st.sampled_from(["MDAJacobi", "MDAGaussSeidel"]))}]
+            cfg["first_tol"] = None
+            cfg["scaling"] = "no_scaling"  # the hand-off point is then known: ||residual||_2 <= 100 tol
     return cfg
 
 
 @st.composite
 def cases(draw):
-    system = draw(coupled_systems())
+    system = draw(coupled_systems(two_cycles=draw(st.integers(0, 5)) == 0))
     values = draw(input_values(system))
     delta = {v["name"]: [draw(st.sampled_from([-0.5, 0.0, 0.25, 1.0])) for _ in range(v["size"])] for v in system["x"]}
     configs = draw(st.lists(configurations(), min_size=1, max_size=3))
@@ -179,13 +198,21 @@ def build_mda(cfg: dict, discs: list):
             inner = {}
         else:
             inner = _solver_settings(s)
-        mda = _mda_class("MDAChain")(discs, inner_mda_name=s["cls"], inner_mda_settings=inner, n_processes=1, **common)
+        extra = {}
+        if cfg.get("sub_cs"):
+            extra["sub_coupling_structures"] = sub_coupling_structures(discs)
+        mda = _mda_class("MDAChain")(discs, inner_mda_name=s["cls"], inner_mda_settings=inner, n_processes=1, **extra, **common)
         if s["cls"] == "MDANewtonRaphson":
             for sub in mda.inner_mdas:
                 sub.matrix_type = s["nr_matrix"]
     elif kind == "gsnewton":
-        nr = _solver_settings(cfg["nr"])
-        mda = _mda_class("MDAGSNewton")(discs, gauss_seidel_settings=_solver_settings(cfg["gs"]), newton_settings=nr, **common)
+        nr, gs = _solver_settings(cfg["nr"]), _solver_settings(cfg["gs"])
+        if cfg.get("settings_as") == "model":
+            from gemseo.mda.gauss_seidel_settings import MDAGaussSeidel_Settings
+            from gemseo.mda.newton_raphson_settings import MDANewtonRaphson_Settings
+
+            nr, gs = MDANewtonRaphson_Settings(**nr), MDAGaussSeidel_Settings(**gs)
+        mda = _mda_class("MDAGSNewton")(discs, gauss_seidel_settings=gs, newton_settings=nr, **common)
         mda.mda_sequence[1].matrix_type = cfg["nr"]["nr_matrix"]
     else:
         subs = []
@@ -195,6 +222,8 @@ def build_mda(cfg: dict, discs: list):
                 sub_common["max_mda_iter"] = cfg["first_budget"]
                 if cfg.get("first_tol") is not None:
                     sub_common["tolerance"] = max(cfg["first_tol"], cfg["tol"])
+            elif cfg.get("last_budget") is not None:
+                sub_common["max_mda_iter"] = cfg["last_budget"]
             sub = _mda_class(s["cls"])(discs, **sub_common, **_solver_settings(s))
             if s["cls"] == "MDANewtonRaphson":
                 sub.matrix_type = s["nr_matrix"]
@@ -202,6 +231,35 @@ def build_mda(cfg: dict, discs: list):
         mda = _mda_class("MDASequential")(discs, mda_sequence=subs, **common)
     mda.scaling = mda.ResidualScaling(cfg["scaling"])
     return mda
+
+
+def sub_coupling_structures(discs: list) -> list:
+    """One CouplingStructure per inner MDA of MDAChain(discs), in the order in which MDAChain consumes them."""
+    from gemseo.core.coupling_structure import CouplingStructure
+    from gemseo.mda.base_mda import BaseMDA
+
+    structure = CouplingStructure(discs)
+    out = []
+    for parallel_tasks in structure.sequence:
+        for component in parallel_tasks:
+            if len(component) > 1 or (structure.is_self_coupled(component[0]) and not isinstance(component[0], BaseMDA)):
+                out.append(CouplingStructure([d for d in discs if d in component]))
+    return out
+
+
+def handoff_budgets(model: CoupledSystem, tol: float) -> tuple[float, int]:
+    """Tolerance of the first MDA and iteration budget of the last MDA of a hand-off sequence.
+
+    The first MDA (plain Jacobi, NO_SCALING, full budget) stops with ||residual||_2 <= 100 tol, i.e. a max-norm
+    error <= 100 tol / (1-q).  Plain Jacobi / Gauss-Seidel sweeps contract the max-norm error by q and the 2-norm
+    of the residual is at most sqrt(n) (1+q) times the error: k sweeps with
+    sqrt(n) (1+q) q^k 100 tol / (1-q) <= tol suffice (+2 as a margin; the first sweep of an MDA only measures).
+    From the initial point the same k sweeps leave an error of about rate^k e0, far above the tolerance.
+    """
+    q, n = model.q, max(model.n_v, 1)
+    target = (1.0 - q) / (100.0 * math.sqrt(n) * (1.0 + q))
+    need = int(math.ceil(math.log(target) / math.log(q)))
+    return 100.0 * tol, need + 3
 
 
 def wrap_cycles(model: CoupledSystem, discs: list, order: list, kind: str) -> list:
@@ -586,8 +644,12 @@ def _case_mda(p, ctx):
         tag = cfg["kind"] + ":" + "+".join(s["cls"] for s in parts)
         n_disc = info["n_disc"]
         order = [i for i in cfg["perm"] if i < n_disc]
-        discs_all = build_disciplines(model, defaults, p["grammar"], reject_non_finite=True)
+        factor = 0.5 if cfg.get("inexact_jac") else 1.0
+        discs_all = build_disciplines(model, defaults, p["grammar"], reject_non_finite=True, coupling_jacobian_factor=factor)
         discs = [discs_all[i] for i in order]
+        if cfg["kind"] == "sequential" and cfg.get("handoff"):
+            first_tol, last = handoff_budgets(model, cfg["tol"])
+            cfg = {**cfg, "first_budget": BUDGET, "first_tol": first_tol, "last_budget": last}
         if needs_all_strong(cfg) and not info["all_strong"]:
             # documented rejection by MDANewtonRaphson ...
             try:
@@ -605,7 +667,7 @@ def _case_mda(p, ctx):
                 continue
             parts = solver_parts(cfg)
             tag = cfg["kind"] + ":" + "+".join(s["cls"] for s in parts)
-            discs_all = build_disciplines(model, defaults, p["grammar"], reject_non_finite=True)
+            discs_all = build_disciplines(model, defaults, p["grammar"], reject_non_finite=True, coupling_jacobian_factor=factor)
             discs = [discs_all[i] for i in order]
         if is_aitken_with_relaxation(cfg) and ctx.known("aitken_with_relaxation"):
             continue
@@ -622,6 +684,12 @@ def _case_mda(p, ctx):
         if cfg["kind"] == "chain" and cfg.get("wrap") and info["n_scc_ge2"] >= 1:
             discs = wrap_cycles(model, discs, order, cfg["wrap"])
             ctx.cls("cycle_wrapped_in_" + cfg["wrap"])
+        if cfg["kind"] == "chain" and cfg.get("sub_cs"):
+            ctx.cls("sub_coupling_structures_given" + ("_two_or_more_cycles" if info["n_scc_ge2"] + info["n_self_coupled"] >= 2 else ""))
+        if cfg["kind"] == "gsnewton":
+            ctx.cls("gsnewton_settings_as_" + cfg.get("settings_as", "dict"), *(["inexact_discipline_jacobians"] if cfg.get("inexact_jac") else []))
+        if cfg["kind"] == "sequential" and cfg.get("handoff"):
+            ctx.cls("sequential_handoff")
         if cfg["kind"] == "sequential" and cfg.get("first_tol") is not None and cfg["first_tol"] > cfg["tol"]:
             ctx.cls(f"sequential_starter_tolerance={cfg['first_tol']}")
         mda = build_mda(cfg, discs)
